@@ -160,7 +160,14 @@ def _outcome_optional(row, first: Optional[bool]) -> Optional[bool]:
         a, b = rest.split(":", 1)
         # test: first or isinstance(field, DOptional)
         cond = None
-        if "first" in test and "isinstance" in test:
+        parts = [x.strip().strip("()") for x in test.split(" or ")]
+        known = [x for x in parts if x == "first" or (x.startswith("isinstance(") and x.endswith(", DOptional"))
+                 or (x.startswith("isinstance(") and "DOptional" in x)]
+        extra = [x for x in parts if x not in known]
+        if extra and " and " not in test:
+            # a further reason not to wrap the new field (`field is Null`, ...): it can hold when neither known reason does
+            cond = True
+        elif "first" in test and "isinstance" in test:
             cond = bool(first) or bool(row["inc_opt"])
         elif "first" in test:
             cond = bool(first)
@@ -708,6 +715,24 @@ def rule_eq1(ctx: Ctx) -> RuleResult:
                        "isinstance(other, dict)" in norm(f.node)) for r in rets)
             rr.ob(f.relpath, f.qualname, "; ".join(norm(r.value)[:50] for r in rets), "equal IR types have the same class",
                   DISCHARGED if okc else VIOLATED, "type identity conjoined" if okc else "equality ignores the class", f.node.lineno)
+    # (a') what is compared is the content itself, not a projection of it
+    PROJ = (".keys()", "len(", ".name", ".index", "set(self.type)", "sorted(self.type)", "hash(")
+    for c in prog.subclasses(base):
+        for f in c.methods.get("__eq__", []):
+            rets = [n for n in walk_no_nested(f.node) if isinstance(n, ast.Return) and n.value is not None]
+            for r in rets:
+                for cmpn in ast.walk(r.value):
+                    if isinstance(cmpn, ast.Compare) and len(cmpn.ops) == 1 and isinstance(cmpn.ops[0], ast.Eq):
+                        l, rgt = norm(cmpn.left), norm(cmpn.comparators[0])
+                        if "self" in l or "self" in rgt:
+                            rr.instances += 1
+                            proj = [p_ for p_ in PROJ if p_ in l or p_ in rgt]
+                            rr.ob(f.relpath, f.qualname, norm(cmpn)[:70], "two IR nodes are equal only if their whole content is equal: "
+                                  "merge_field_sets keeps the stored type without merging when the incoming one compares equal",
+                                  VIOLATED if proj else DISCHARGED,
+                                  f"compares {proj[0].strip('.(')} only: nodes that differ in the rest (same field names, other value "
+                                  f"types) compare equal and the later one is dropped, so the result depends on sample order"
+                                  if proj else "full content compared", cmpn.lineno)
     # (b) ComplexType compares sorted MEMBERS
     ct = prog.cls(CPLX, "ComplexType")
     eq = ct.methods["__eq__"][0]
